@@ -89,6 +89,17 @@ class Collect(Case):
             "absent-axis-with-window": z3.Exists([q], z3.And(q >= 0, q < K, HAS(q), z3.Not(covers_all(q)))) if self.params.get("axes") == "absent" else False,
         }
 
+    def concrete_regions(self, values):
+        out = set()
+        cs = values["contexts"]
+        n = values["n"]
+        res = [c_ for c_ in cs if c_["has"]]
+        if any(all(c_["sub"]) for c_ in res) and len(res) >= 2:
+            out.add("result-after-all-covering-context")
+        if self.params.get("axes") == "absent" and any(not all(c_["sub"]) for c_ in res):
+            out.add("absent-axis-with-window")
+        return out
+
     def grid(self, tier, rng):
         import itertools
 
